@@ -1,5 +1,5 @@
 """C07 — active-object publish/subscribe works in every configuration (DESIGN §8)."""
-import pubsub_corr, conc_corr, fabric_corr
+import pubsub_corr, conc_corr, fabric_corr, subfine_corr
 
 
 def explore(run, lean):
@@ -8,6 +8,7 @@ def explore(run, lean):
     conc_corr.explore_live(run, "C07", 20 if run.tier == "quick" else 400)
     fabric_corr.explore_number_subscription_race(run, "C07", 40 if run.tier == "quick" else 1200)
     fabric_corr.explore_same_queue_race(run, "C07", 60 if run.tier == "quick" else 1500)
+    subfine_corr.explore(run, "C07", 40 if run.tier == "quick" else 1000)
     run.extra["rule"] = ("(a) configuration space: subscriber spied/un-spied x subscribe before start / after start from outside / "
                          "from its own handler x fifo/lifo x 0-2 other active objects already subscribed x publisher spied/un-spied x "
                          "publish before start / outside / own handler = 216 configurations (quick: a seeded sample of 48, thorough: all); "
@@ -19,6 +20,8 @@ def explore(run, lean):
 
 
 def replay(case):
+    if case.get("case", case).get("what") == "subscribe-steps":
+        return subfine_corr.replay(case)
     if case.get("case", case).get("what") == "number-subscription-race":
         return fabric_corr.replay(case)
     if "scenario" in case.get("case", case):
